@@ -37,16 +37,21 @@ VARIABLES status,  \* c -> "idle" | "run" | "done"
           pend,    \* c -> <<>> or <<[inst, k]>>: Config object built, not yet entered
           stack,   \* c -> sequence of [inst, old]   (old = what the token restores)
           base,    \* ghost: c -> configuration the context started with
-          gst,     \* ghost: c -> keyword-set ids of the enclosing blocks, outermost first
-          invs     \* sequence of [cap, exp]: configuration captured / ghost expectation
+          gst,     \* ghost: c -> configuration the property says is active inside each enclosing block, outermost first
+          invs,    \* sequence of [cap, exp]: configuration captured / ghost expectation
+          pre      \* c -> <<>> or <<[inst, k]>>: a Config object built earlier and kept for later (`quiet = Config(...)`),
+                   \*      entered by `with quiet:` at any later point of the same context
 
-vars == <<status, val, pend, stack, base, gst, invs>>
+vars == <<status, val, pend, stack, base, gst, invs, pre>>
 
 RECURSIVE FoldKw(_, _)
 FoldKw(cfg, ks) == IF ks = <<>> THEN cfg ELSE FoldKw(Replace(cfg, Kw[Head(ks)]), Tail(ks))
 
-\* what the property says is active in context c
-Active(c) == FoldKw(base[c], gst[c])
+\* what the property says is active in context c: the configuration of the innermost open block, else what the
+\* context started with.  For a `with Config(**kw)` block that configuration is the one active just before the block
+\* with the named settings overridden (ghost computed from the ghost, never from val); for a Config object built
+\* earlier it is the object's own configuration (settings inherited where and when the object was built).
+Active(c) == IF gst[c] = <<>> THEN base[c] ELSE gst[c][Len(gst[c])]
 
 Init == /\ status = [c \in Ctx |-> IF c = 0 THEN "run" ELSE "idle"]
         /\ val = [c \in Ctx |-> Default]
@@ -55,6 +60,7 @@ Init == /\ status = [c \in Ctx |-> IF c = 0 THEN "run" ELSE "idle"]
         /\ base = [c \in Ctx |-> Default]
         /\ gst = [c \in Ctx |-> <<>>]
         /\ invs = <<>>
+        /\ pre = [c \in Ctx |-> <<>>]
 
 Running(c) == status[c] = "run"
 Free(c) == Running(c) /\ pend[c] = <<>>
@@ -62,15 +68,29 @@ Free(c) == Running(c) /\ pend[c] = <<>>
 \* Config.__init__: reads the *current* configuration and applies the keywords
 New(c, k) == /\ Free(c) /\ Len(stack[c]) < MaxDepth
              /\ pend' = [pend EXCEPT ![c] = <<[inst |-> Replace(val[c], Kw[k]), k |-> k]>>]
-             /\ UNCHANGED <<status, val, stack, base, gst, invs>>
+             /\ UNCHANGED <<status, val, stack, base, gst, invs, pre>>
 
 \* Config.__enter__: token = var.set(instance)
 Enter(c) == /\ Running(c) /\ pend[c] # <<>>
             /\ val' = [val EXCEPT ![c] = pend[c][1].inst]
             /\ stack' = [stack EXCEPT ![c] = Append(@, [inst |-> pend[c][1].inst, old |-> val[c]])]
-            /\ gst' = [gst EXCEPT ![c] = Append(@, pend[c][1].k)]
+            /\ gst' = [gst EXCEPT ![c] = Append(@, Replace(Active(c), Kw[pend[c][1].k]))]
             /\ pend' = [pend EXCEPT ![c] = <<>>]
-            /\ UNCHANGED <<status, base, invs>>
+            /\ UNCHANGED <<status, base, invs, pre>>
+
+\* a Config object built now and kept: `quiet = Config(**kw)` (it reads the configuration current NOW)
+Prebuild(c, k) == /\ Free(c) /\ pre[c] = <<>>
+                  /\ pre' = [pre EXCEPT ![c] = <<[inst |-> Replace(val[c], Kw[k]), k |-> k]>>]
+                  /\ UNCHANGED <<status, val, pend, stack, base, gst, invs>>
+
+\* `with quiet:` later, possibly inside other blocks: the object's own configuration becomes active; leaving the
+\* block must restore what was active just before THIS enter (not what was current when the object was built)
+EnterPre(c) == /\ Free(c) /\ pre[c] # <<>> /\ Len(stack[c]) < MaxDepth
+               /\ val' = [val EXCEPT ![c] = pre[c][1].inst]
+               /\ stack' = [stack EXCEPT ![c] = Append(@, [inst |-> pre[c][1].inst, old |-> val[c]])]
+               /\ gst' = [gst EXCEPT ![c] = Append(@, pre[c][1].inst)]
+               /\ pre' = [pre EXCEPT ![c] = <<>>]
+               /\ UNCHANGED <<status, pend, base, invs>>
 
 \* Config.__exit__ (normally or through an exception): var.reset(token)
 Exit(c, how) == /\ Free(c) /\ stack[c] # <<>>
@@ -78,12 +98,12 @@ Exit(c, how) == /\ Free(c) /\ stack[c] # <<>>
                 /\ val' = [val EXCEPT ![c] = stack[c][Len(stack[c])].old]
                 /\ stack' = [stack EXCEPT ![c] = SubSeq(@, 1, Len(@) - 1)]
                 /\ gst' = [gst EXCEPT ![c] = SubSeq(@, 1, Len(@) - 1)]
-                /\ UNCHANGED <<status, pend, base, invs>>
+                /\ UNCHANGED <<status, pend, base, invs, pre>>
 
 \* InverseOperator.__init__: self.config = Config.instance()
 CreateInv(c) == /\ Free(c) /\ Len(invs) < MaxInv
                 /\ invs' = Append(invs, [cap |-> val[c], exp |-> Active(c)])
-                /\ UNCHANGED <<status, val, pend, stack, base, gst>>
+                /\ UNCHANGED <<status, val, pend, stack, base, gst, pre>>
 
 \* InverseOperator.mv: uses self.config whatever is active (no state change)
 ApplyInv(c, i) == /\ Free(c) /\ i \in 1..Len(invs) /\ UNCHANGED vars
@@ -98,15 +118,17 @@ Spawn(p, c, kind) == /\ Free(p) /\ status[c] = "idle" /\ c # p
                      /\ LET v == IF kind = "thread" THEN Default ELSE val[p] IN
                         /\ val' = [val EXCEPT ![c] = v]
                         /\ base' = [base EXCEPT ![c] = v]
-                     /\ UNCHANGED <<pend, stack, gst, invs>>
+                     /\ UNCHANGED <<pend, stack, gst, invs, pre>>
 
 Finish(c) == /\ c # 0 /\ Free(c) /\ stack[c] = <<>>
              /\ status' = [status EXCEPT ![c] = "done"]
-             /\ UNCHANGED <<val, pend, stack, base, gst, invs>>
+             /\ UNCHANGED <<val, pend, stack, base, gst, invs, pre>>
 
 Next == \E c \in Ctx :
           \/ \E k \in 1..NKw : New(c, k)
           \/ Enter(c)
+          \/ \E k \in 1..NKw : Prebuild(c, k)
+          \/ EnterPre(c)
           \/ \E how \in {"normal", "exception"} : Exit(c, how)
           \/ CreateInv(c)
           \/ \E i \in 1..MaxInv : ApplyInv(c, i)
@@ -136,7 +158,7 @@ CapturedAtCreation == \A i \in 1..Len(invs) : invs[i].cap = invs[i].exp
 ExitRestores == [][\A c \in Ctx :
                      (Len(stack'[c]) < Len(stack[c])) =>
                         /\ val'[c] = stack[c][Len(stack[c])].old
-                        /\ val'[c] = FoldKw(base[c], SubSeq(gst[c], 1, Len(gst[c]) - 1))]_vars
+                        /\ val'[c] = (IF Len(gst[c]) = 1 THEN base[c] ELSE gst[c][Len(gst[c]) - 1])]_vars
 
 \* configuration changes made in one context are never visible in another:
 \* val[c] changes only through c's own Enter/Exit or when c is spawned
